@@ -60,3 +60,11 @@ cover = note
 Prov = "Prov"
 opt_str = "opt_str"
 opt_float = "opt_float"
+
+
+def cs_side(cs):
+    return cs._verif_side
+
+
+CS = "CS"
+World = "World"
